@@ -420,6 +420,16 @@ class NetLoop(SimLoop):
         key = ("unix", path)
         if key in self.net.listeners:
             raise OSError(errno.EADDRINUSE, f"Address {path!r} is already in use")
+        # like asyncio's create_unix_server: a stale *socket* file is removed first; anything else is in the way
+        try:
+            import stat
+            if stat.S_ISSOCK(os.stat(path).st_mode):
+                os.remove(path)
+                self.net.stats["probe:stale_socket_removed"] += 1
+        except FileNotFoundError:
+            pass
+        if os.path.exists(path):
+            raise OSError(errno.EADDRINUSE, f"Address {path!r} is already in use")
         # bind() creates the socket file
         with open(path, "wb"):
             pass
